@@ -79,6 +79,8 @@ func init() {
 	addProp(&propCfg{id: "C01", quick: tierCfg{3000, 60, 25}, thorough: tierCfg{400000, 900, 200}})
 	addProp(&propCfg{id: "C04", quick: tierCfg{4000, 60, 25}, thorough: tierCfg{400000, 600, 200}})
 	addProp(&propCfg{id: "C10", quick: tierCfg{4000, 60, 25}, thorough: tierCfg{400000, 900, 200}})
+	addProp(&propCfg{id: "C14", quick: tierCfg{4000, 60, 25}, thorough: tierCfg{400000, 900, 200}})
+	addProp(&propCfg{id: "C15", quick: tierCfg{4000, 60, 25}, thorough: tierCfg{400000, 900, 200}})
 }
 
 // ---------------------------------------------------------------------------
@@ -830,6 +832,7 @@ func cmdReplay(args []string) int {
 		fatal2("usage: verif replay <file>")
 	}
 	path, _ := filepath.Abs(args[0])
+	full := len(args) > 1 && args[1] == "--full"
 	raw, err := os.ReadFile(path)
 	if err != nil {
 		fatal2("%v", err)
@@ -865,7 +868,11 @@ func cmdReplay(args []string) int {
 		fmt.Printf("note: replay file was recorded on tree %s, current tree is %s\n", rf.Tree, tree)
 	}
 	n := len(ro.Trace)
-	for _, ln := range ro.Trace[max(0, n-60):] {
+	from := max(0, n-60)
+	if full {
+		from = 0
+	}
+	for _, ln := range ro.Trace[from:] {
 		fmt.Println(ln)
 	}
 	fmt.Printf("trace hash %s (recorded %s) same=%v\n", ro.TraceHash, rf.TraceHash, ro.SameHash)
